@@ -126,6 +126,17 @@ class Report:
             print(f"NOTE: {text} (x{n})")
         if self.notes:
             self.cov["notes"] = self.notes
+        c = self.cov
+        c["traces_validated_against_impl"] = c.get("behaviours_replayed", 0) + \
+            c.get("recorded_traces_validated", 0)
+        c.setdefault("evaluations", c.get("behaviours_replayed", 0) + c.get("trace_steps_validated", 0)
+                     + c.get("table_rows_checked", 0))
+        c.setdefault("distinct_nontrivial", c.get("distinct_final_states_replayed", 0)
+                     + c.get("distinct_trace_states", 0) + c.get("distinct_rows", 0))
+        c.setdefault("rule", "spec->code: one behaviour per transition TLC generated in the bounded model, "
+                     "replayed on the real code; distinct = distinct predicted final states (hash of the "
+                     "emitted observables). code->spec: one trace per generated history of the real code, "
+                     "validated step by step by TLC; distinct = distinct states TLC saw while validating")
         ev = {
             "property_id": self.prop,
             "tier": self.tier,
